@@ -401,7 +401,13 @@ def run(ck):
                                      "gradient %d accumulates %r; expected the group's contribution number %d" % (k, getattr(at, "args", [None] * 4)[3] if at is not None else items[k].term, k))
                 elif ec:
                     sub = argp(ec[-1][7], 1)
-                    if judge("reference-basis group: its own samples", None, sub, need_basis=False):
+                    if sub is not None and sub == Sx and (loops_enclosing(it, ".effective_energy_gradient") or len(ec) >= 2):
+                        # inside the loop over the groups the whole batch is handed over: every all-Z group adds the energy gradient
+                        # of all rows (rotated ones included) instead of its own rows'
+                        ck.violation("C03.R4", inst + ":reference-basis group: its own samples [%s]" % _c(p), gsite,
+                                     "inside the loop over the basis groups the reference-basis group's energy gradient is evaluated on the whole batch, not on the group's own rows",
+                                     key="C03.R4|gradient|all-Z group on the whole batch")
+                    elif judge("reference-basis group: its own samples", None, sub, need_basis=False):
                         # the group's energy gradient is ADDED to what the earlier groups contributed
                         t0 = items[0].term if isinstance(items[0], VTens) else None
                         at0 = t0.single_atom() if t0 is not None else None
@@ -490,6 +496,19 @@ def run(ck):
             check_history(ck, "C03.R7", cls + ".gradient(samples, bases)", gsite, mk1, lambda it, c: call(it, c[0], "gradient", c[1], bases=c[2]), max_paths=40)
             check_history(ck, "C03.R7", cls + ".positive_phase_gradients(samples, bases)", prog.method(cls, "positive_phase_gradients").site(), mk1,
                           lambda it, c: call(it, c[0], "positive_phase_gradients", c[1], bases_batch=c[2]), max_paths=40)
+    # the exact negative phase (model average over the whole space) is a function of the current parameters and of the space given
+    # to this call - of nothing an earlier call left behind
+    for cls in STATES:
+        esite = prog.method(cls, "compute_exact_gradients").site() if cls != "PositiveWaveFunction" else prog.method(cls, "compute_exact_grads").site()
+
+        def mk2(it, cls=cls):
+            return (make_state(it, cls), tens(it, "S", ("B", "nv")), tens(it, "space", ("N", "nv")))
+
+        if cls == "PositiveWaveFunction":
+            f2 = lambda it, c: call(it, c[0], "compute_exact_grads", c[1], c[2])  # noqa: E731
+        else:
+            f2 = lambda it, c: call(it, c[0], "compute_exact_gradients", c[1], c[2])  # noqa: E731
+        check_history(ck, "C03.R7", cls + ".exact gradients(samples, space)", esite, mk2, f2, max_paths=40)
     ck.require_min("C03.R7", 10)
     ck.require_min("C03.R1", 40)
     ck.require_min("C03.R2", 30)
